@@ -32,8 +32,8 @@ class FlexMFModel(nn.Module):
     n_items: int
     e_size: int
 
-    u_bias: nn.Embedding | None = None
-    i_bias: nn.Embedding | None = None
+    u_bias: nn.Embedding | None
+    i_bias: nn.Embedding | None
     u_embed: nn.Embedding
     i_embed: nn.Embedding
 
@@ -54,10 +54,16 @@ class FlexMFModel(nn.Module):
         self.n_items = n_items
 
         # user and item bias terms
+        # (class-level ``None`` defaults would shadow the registered submodules,
+        # since ``nn.Module`` only resolves them through ``__getattr__``)
         if user_bias:
             self.u_bias = nn.Embedding(n_users, 1, sparse=sparse)
+        else:
+            self.u_bias = None
         if item_bias:
             self.i_bias = nn.Embedding(n_items, 1, sparse=sparse)
+        else:
+            self.i_bias = None
 
         # user and item embeddings
         self.u_embed = nn.Embedding(n_users, e_size, sparse=sparse)
